@@ -8,6 +8,8 @@
 //!                | ro (like d, but `*.set_read_only` switch read-only ON) | fixture (collection.ensure creates `c1`)
 //!        target may also be raw:S - the raw request target (path and query) - which the model routes itself
 //!   restart                (clean stop, new AppState over the same store)
+//!   begin <id> <VERB> <target> … (as req)   send the request head, withhold the body
+//!   finish <id>            deliver the body of request <id>, collect the answer (decided NOW)
 //!   fault <k>              (the PUT of <primary>/db_meta.cbor - registry and key map - fails once, after k more such PUTs)
 //!   crash                  (the process dies without flushing; new AppState over what the store holds; the model treats it as restart)
 //!   fixture <S>            (harness only: populate database S through the admin; not sent to the model)
@@ -71,6 +73,11 @@ pub enum Op {
     Fault2(usize),
     /// disarm the fault
     NoFault,
+    /// send the head of a request and withhold its body (the service authorises from the headers and
+    /// then waits for the body)
+    Begin(String, Req),
+    /// deliver the withheld body of request `id` and collect the answer
+    Finish(String),
     Fixture(String),
 }
 
@@ -204,6 +211,8 @@ impl Op {
             Op::Fault(k) => format!("fault {k}"),
             Op::Fault2(k) => format!("fault2 {k}"),
             Op::NoFault => "nofault".into(),
+            Op::Begin(id, r) => format!("begin {id} {}", Op::Req(r.clone()).to_line().strip_prefix("req ").unwrap_or("")),
+            Op::Finish(id) => format!("finish {id}"),
             Op::Fixture(n) => format!("fixture {}", enc_str(n)),
             Op::Req(r) => {
                 let target = match &r.target {
@@ -235,6 +244,11 @@ impl Op {
             ["fault", k] => Some(Op::Fault(k.parse().ok()?)),
             ["fault2", k] => Some(Op::Fault2(k.parse().ok()?)),
             ["nofault"] => Some(Op::NoFault),
+            ["finish", id] => Some(Op::Finish(id.to_string())),
+            ["begin", id, rest @ ..] => match Op::parse(&format!("req {}", rest.join(" ")))? {
+                Op::Req(r) => Some(Op::Begin(id.to_string(), r)),
+                _ => None,
+            },
             ["fixture", n] => Some(Op::Fixture(dec_str(n)?)),
             ["req", verb, target, auth, ct, accept, body @ ..] => {
                 let mut raw = None;
